@@ -2,36 +2,43 @@ package main
 
 import (
 	"fmt"
-	"time"
+	"os"
 
-	"github.com/cosmos/iavl"
-
-	"verif/internal/seam"
+	iavl2 "github.com/cosmos/iavl/v2"
 )
 
+type lg struct{}
+
+func (lg) Info(string, ...any)  {}
+func (lg) Warn(string, ...any)  {}
+func (lg) Debug(string, ...any) {}
+func (lg) Error(msg string, kv ...any) { fmt.Println("ERROR", msg, kv) }
+
 func main() {
-	st := seam.NewMemStore()
-	t := iavl.NewMutableTree(st, 100, false, iavl.NewNopLogger(), iavl.AsyncPruningOption(true))
-	t.Load()
-	for i := 1; i <= 5; i++ {
-		t.Set([]byte(fmt.Sprintf("k%d", i)), []byte("v"))
-		t.SaveVersion()
+	for i := 0; i < 300; i++ {
+		dir, _ := os.MkdirTemp("", "v2close")
+		pool := iavl2.NewNodePool()
+		sql, err := iavl2.NewSqliteDb(pool, iavl2.SqliteDbOptions{Path: dir, Logger: lg{}})
+		if err != nil {
+			panic(err)
+		}
+		opts := iavl2.DefaultTreeOptions()
+		opts.CheckpointInterval = 1
+		opts.StateStorage = true
+		t := iavl2.NewTree(sql, pool, opts)
+		for v := 0; v < 3; v++ {
+			t.Set([]byte(fmt.Sprintf("k%d", v)), []byte("v"))
+			if _, _, err := t.SaveVersion(); err != nil {
+				panic(err)
+			}
+		}
+		if err := t.DeleteVersionsTo(2); err != nil {
+			panic(err)
+		}
+		if err := t.Close(); err != nil {
+			fmt.Println("close error:", err)
+		}
+		os.RemoveAll(dir)
 	}
-	fmt.Println("del", t.DeleteVersionsTo(3))
-	for i := 0; i < 100 && t.VersionExists(3); i++ {
-		time.Sleep(20 * time.Millisecond)
-	}
-	fmt.Println("avail", t.AvailableVersions())
-	for v := int64(1); v <= 6; v++ {
-		_, e1 := t.GetImmutable(v)
-		val, e2 := t.GetVersioned([]byte("k1"), v)
-		fmt.Println(v, "exists", t.VersionExists(v), "getimm err", e1, "getversioned", string(val), e2)
-	}
-	t2 := iavl.NewMutableTree(st, 100, false, iavl.NewNopLogger())
-	fmt.Println(t2.Load())
-	fmt.Println("fresh handle avail", t2.AvailableVersions())
-	for v := int64(1); v <= 5; v++ {
-		_, err := t.LoadVersion(v)
-		fmt.Println("load", v, err, t.Version())
-	}
+	fmt.Println("survived 300 rounds of DeleteVersionsTo + Close")
 }
